@@ -49,6 +49,7 @@ type FieldT struct {
 	Name     string
 	Tag      string // full struct tag
 	Exported bool
+	Embedded bool
 	T        *Type
 }
 
@@ -93,6 +94,9 @@ func (t *Type) String() string {
 		var fs []string
 		for _, f := range t.Fields {
 			s := f.Name + " " + f.T.String()
+			if f.Embedded {
+				s = "embedded " + s
+			}
 			if f.Tag != "" {
 				s += " `" + f.Tag + "`"
 			}
@@ -169,7 +173,7 @@ func (t *Type) RT() reflect.Type {
 		}
 		var fs []reflect.StructField
 		for _, f := range t.Fields {
-			sf := reflect.StructField{Name: f.Name, Type: f.T.RT(), Tag: reflect.StructTag(f.Tag)}
+			sf := reflect.StructField{Name: f.Name, Type: f.T.RT(), Tag: reflect.StructTag(f.Tag), Anonymous: f.Embedded}
 			if !f.Exported {
 				sf.PkgPath = "verif/x"
 			}
@@ -346,13 +350,14 @@ func NMap(key, elem *Type, kv ...*Node) *Node {
 type F struct {
 	Name, Tag string
 	Unexp     bool
+	Embedded  bool // an embedded (anonymous) exported struct field: for lookups it is an ordinary field called Name; Go promotes its fields
 	V         *Node
 }
 
 func NStruct(fs ...F) *Node {
 	n := &Node{T: &Type{K: KStruct}}
 	for _, f := range fs {
-		n.T.Fields = append(n.T.Fields, FieldT{Name: f.Name, Tag: f.Tag, Exported: !f.Unexp, T: f.V.T})
+		n.T.Fields = append(n.T.Fields, FieldT{Name: f.Name, Tag: f.Tag, Exported: !f.Unexp, Embedded: f.Embedded, T: f.V.T})
 		n.Items = append(n.Items, f.V)
 	}
 	return n
